@@ -80,11 +80,11 @@ def gen_reaper(rng, threaded, quick):
 def generate(rng, tier):
     quick = tier != 'thorough'
     cases = []
-    for _ in range(120 if quick else 4000):
+    for _ in range(120 if quick else 2000):
         cases.append(NC.gen_relay(rng, profile='timed', handler='http', n_events=rng.choice([6, 10, 16]) if quick else rng.choice([10, 30, 60])))
-    for _ in range(110 if quick else 3000):
+    for _ in range(110 if quick else 1500):
         cases.append(gen_reaper(rng, False, quick))
-    for _ in range(110 if quick else 3000):
+    for _ in range(110 if quick else 1500):
         cases.append(gen_reaper(rng, True, quick))
     return cases
 
